@@ -225,4 +225,16 @@ theorem flag_iff (ls : List (Nat × Nat)) (v : Nat) :
 theorem limit (G : Type) (k l : Nat) (g : Exp.Gen G) (h : g.remaining = some l) : (Exp.Gen.take k g).1.length ≤ l :=
   (C10.limit_total k g l h).1
 
+/-! ### non-vacuity: the samplers and the glue do return on concrete inputs -/
+
+/-- acceptance threshold 5 against random numbers 0: two degrees 3 and 4 (odd sum); the repair replaces index 0 by a 6 -/
+example : ((plcDegrees (K := Nat) (fun _ => 5) 100 2 [.i 1 100 3, .f 0, .i 1 100 4, .f 0, .i 0 2 0, .i 1 100 6, .f 0]).map (·.1)) = some [4, 6] := by
+  decide +kernel
+
+/-- one core node, two periphery nodes joined to each other, the core joined to periphery node 1 only -/
+example : (corePeriphery (K := Nat) 1 2 [] [(0, 1)] 0 [.f 0, .f 1] [0, 1, 2]).isSome = true := by decide +kernel
+
+/-- a centre of two joined nodes and one satellite of one node -/
+example : (modular (K := Nat) 2 1 [(0, 1)] [0, 1] [([], [0])] [.i 0 2 1, .i 0 1 0]).isSome = true := by decide +kernel
+
 end C15
